@@ -71,7 +71,7 @@ class Frame(object):
                 self._type = "ack"
             elif frame == bytearray(b"\x00\x00\xFF\xFF\xFF"):
                 self._type = "err"
-            elif frame[3:5] == bytearray(b"\xff\xff"):
+            elif frame[3:5] == bytearray(b"\xff\xff") and len(frame) >= 8:
                 self._type = "data"
             if self.type == "data":
                 length = struct.unpack("<H", bytes(frame[5:7]))[0]
@@ -323,6 +323,10 @@ class Chipset(object):
             data = data + bytes(transmit_data)
 
         data = self.send_command(0x48, data)
+
+        if data and len(data) < 7:
+            log.error("no valid response to TgCommRF")
+            raise IOError(errno.EIO, os.strerror(errno.EIO))
 
         if data and tuple(data[3:7]) != (0, 0, 0, 0):
             raise CommunicationError(data[3:7])
